@@ -104,6 +104,22 @@ Theorem C08_fin_ok_combinators :
         fin_ok f -> fin_ok g -> fin_ok (fun s b => if c s (bb_size b) (bb_pos b) then f s b else g s b)).
 Proof. exact @fin_ok_combinators. Qed.
 
+(** the complete plumbing of each crate as written ([update], the per-block closure with its
+    counter, [finalize_into_dirty] incl. padding and length encoding; Model/Hasher.v
+    [blake_hasher], [groestl_hasher], [jh_hasher], [skein_hasher]) meets the hypotheses of all the
+    theorems above for EVERY compression function, output function, initial value and block
+    size > 0; so C08 holds for the 15 types whatever their compression functions compute *)
+Theorem C08_crate_hashers_ok :
+  forall X digest (dflt : digest),
+  (forall w size isfull (iv : X) put_block (out : X -> digest), 0 < size ->
+      hasher_ok (blake_hasher dflt w size isfull iv put_block out))
+  /\ (forall size (iv : X) input (out : X -> digest), 0 < size ->
+      hasher_ok (groestl_hasher size iv input out))
+  /\ (forall (iv : X) input (out : X -> digest), hasher_ok (jh_hasher dflt iv input out))
+  /\ (forall size (init : X * (N * N)) process_block (output : X -> digest), 0 < size ->
+      hasher_ok (skein_hasher dflt size init process_block output)).
+Proof. exact @crate_hashers_ok. Qed.
+
 (** the buffering hands every byte to the closure or keeps it, exactly once and in order
     (the logging hasher reconstructs the message) *)
 Theorem C08_log_oneshot_id :
@@ -125,5 +141,6 @@ Print Assumptions C08_reset_like_new.
 Print Assumptions C08_new_table_run1.
 Print Assumptions C08_shapes_ok.
 Print Assumptions C08_fin_ok_combinators.
+Print Assumptions C08_crate_hashers_ok.
 Print Assumptions C08_log_oneshot_id.
 Print Assumptions C08_examples.
